@@ -13,6 +13,9 @@ use std::path::PathBuf;
 /// (name, stage, text with the offending region between ⟦ and ⟧)
 pub const TEMPLATES: &[(&str, &str, &str)] = &[
     ("lex-stray-char", "lexer", "from t | select {a ⟦^⟧ b}"),
+    ("lex-stray-2-byte-char", "lexer", "from t | select {a ⟦§⟧ b}"),
+    ("lex-stray-3-byte-char", "lexer", "from t | select {a ⟦€⟧ b}"),
+    ("lex-stray-4-byte-char", "lexer", "from t | select {a ⟦🐢⟧ b}"),
     ("lex-unterminated-string", "lexer", "from t | select {x = ⟦'abc}⟧"),
     ("syn-stray-paren", "parser", "from t | select {a, b} ⟦)⟧"),
     ("syn-missing-brace", "parser", "from t | select ⟦{a, b⟧"),
@@ -293,19 +296,63 @@ fn check_spans(b: &Built, errs: &prqlc::ErrorMessages, stage: &str, conv: Conv) 
     bad
 }
 
+/// the unit of span offsets is a property of the compiler, not of one error: it is calibrated once per run on
+/// the results in which the two readings differ (see `run`), and every result is then judged under it
 pub fn check(b: &Built, stage: &str) -> Vec<(String, String)> {
+    let (common, bytes, chars) = check3(b, stage);
+    let mut bad = common;
+    match convention() {
+        Conv::Bytes => bad.extend(bytes),
+        Conv::Chars => bad.extend(chars),
+    }
+    bad
+}
+
+static CONVENTION: std::sync::OnceLock<Conv> = std::sync::OnceLock::new();
+
+fn convention() -> Conv {
+    *CONVENTION.get_or_init(|| {
+        // calibration set: resolver / parser errors behind multi-byte text, where bytes and characters differ
+        let (mut nb, mut nc) = (0u32, 0u32);
+        for (ti, t) in TEMPLATES.iter().enumerate() {
+            if t.1 == "lexer" {
+                continue;
+            }
+            for pi in [2usize, 3, 4] {
+                let b = build(&CaseSpec { template: ti, padding: pi, placement: 0 });
+                let (_, bytes, chars) = check3(&b, t.1);
+                if bytes.is_empty() != chars.is_empty() {
+                    if bytes.is_empty() {
+                        nb += 1
+                    } else {
+                        nc += 1
+                    }
+                }
+            }
+        }
+        // (no evidence either way: byte offsets, which is what "on character boundaries" presupposes)
+        if nc > nb {
+            Conv::Chars
+        } else {
+            Conv::Bytes
+        }
+    })
+}
+
+/// (findings independent of the unit, findings reading spans as bytes, findings reading them as characters)
+pub fn check3(b: &Built, stage: &str) -> (Vec<(String, String)>, Vec<(String, String)>, Vec<(String, String)>) {
     let mut bad = vec![];
     let r = match compile_files(b) {
         Err(p) => {
             bad.push((crate::c12::panic_key(&p), format!("panic at {}: {}", p.site, p.msg)));
-            return bad;
+            return (bad, vec![], vec![]);
         }
         Ok(r) => r,
     };
     let errs = match r {
         Ok(sql) => {
             bad.push(("erroneous-source-accepted".into(), format!("compiled to {sql}")));
-            return bad;
+            return (bad, vec![], vec![]);
         }
         Err(e) => e,
     };
@@ -317,15 +364,9 @@ pub fn check(b: &Built, stage: &str) -> Vec<(String, String)> {
             bad.push(("empty-reason".into(), "error with empty reason".into()));
         }
     }
-    // one convention must explain every span of this result
     let as_bytes = check_spans(b, &errs, stage, Conv::Bytes);
-    if !as_bytes.is_empty() {
-        let as_chars = check_spans(b, &errs, stage, Conv::Chars);
-        if !as_chars.is_empty() {
-            bad.extend(if as_chars.len() < as_bytes.len() { as_chars } else { as_bytes });
-        }
-    }
-    bad
+    let as_chars = check_spans(b, &errs, stage, Conv::Chars);
+    (bad, as_bytes, as_chars)
 }
 
 pub fn run(tier: Tier) -> i32 {
@@ -438,8 +479,9 @@ pub fn run(tier: Tier) -> i32 {
     run.states = (cases.len() + edits.len()) as u64;
     run.transitions = st.points;
     run.set("bounds", json!({"templates": TEMPLATES.iter().map(|t| t.0).collect::<Vec<_>>(), "paddings": PADDINGS.iter().map(|p| p.0).collect::<Vec<_>>(), "placements": ["single file", "2 files, error in root", "2 files, error in module", "3 files, error in module"]}));
-    run.set("rule", json!("complete product template × padding × placement; each erroneous project is compiled; every returned error is checked: non-empty reason; span ordered, inside the named file, location = line/column of the span, display quotes that line, and some span touches the known offending text (offsets read as bytes or as characters: one convention must explain all spans of a result; under bytes they must lie on character boundaries)"));
-    run.assume("the unit of span offsets is not fixed by the property: a result is accepted if reading every span as byte offsets, or every span as character offsets, satisfies all clauses");
+    run.set("rule", json!("complete product template × padding × placement; each erroneous project is compiled; every returned error is checked: non-empty reason; span ordered, inside the named file, location = line/column of the span, display quotes that line, and some span touches the known offending text (the unit of offsets — bytes or characters — is calibrated once per run on the errors behind multi-byte text, then every span is read in that unit; under bytes they must lie on character boundaries)"));
+    run.assume("the unit of span offsets is a property of the compiler: it is calibrated per run (parser/resolver errors behind 2/3/4-byte text, where the readings differ) and applied to every result; without evidence it is bytes");
+    run.set("span_unit", json!(format!("{:?}", convention())));
     run.finish()
 }
 
